@@ -178,6 +178,7 @@ def _wire_args(di, argument):
 
 def make_class(spec, drv, tag=''):
     ns = {'__module__': __name__}
+    late_ns = {}
     base = BASES[spec.get('base', 'Module')]
     mname = spec['name']
     for p in spec.get('params', ()):
@@ -201,7 +202,10 @@ def make_class(spec, drv, tag=''):
         else:
             ns[pname] = Parameter(f'generated parameter {pname}', dt, **kw)
         drv.di[mname, pname] = di
-        if p.get('default') is not None:
+        if p.get('hw') is not None:
+            # the hardware register differs from the declared default / constant
+            drv.reg[mname, pname] = dtgen.to_internal(di, p['hw'])
+        elif p.get('default') is not None:
             drv.reg[mname, pname] = dtgen.to_internal(di, p['default'])
         elif p.get('init') is not None:
             drv.reg[mname, pname] = dtgen.to_internal(di, p['init'])
@@ -219,12 +223,15 @@ def make_class(spec, drv, tag=''):
             ns['write_' + pname] = wf
         lim = p.get('limits')
         if lim and di['type'] in NUMERIC:
+            # 'split': the limit parameters are declared in a subclass of the class which declares the parameter
+            # (and its check hook)
+            where = late_ns if p.get('split') else ns
             if lim in ('min', 'minmax'):
-                ns[pname + '_min'] = Limit()
+                where[pname + '_min'] = Limit()
             if lim in ('max', 'minmax'):
-                ns[pname + '_max'] = Limit()
+                where[pname + '_max'] = Limit()
             if lim == 'limits':
-                ns[pname + '_limits'] = Limit()
+                where[pname + '_limits'] = Limit()
         if p.get('veto') is not None:
             veto = dtgen.to_internal(di, p['veto'])
 
@@ -280,6 +287,9 @@ def make_class(spec, drv, tag=''):
     if 'enablePoll' in spec:
         ns['enablePoll'] = spec['enablePoll']
     cls = type(f'Gen_{mname}{tag}', (base,), ns)
+    if late_ns:
+        late_ns['__module__'] = __name__
+        cls = type(f'Gen_{mname}{tag}_sub', (cls,), late_ns)
     drv.mods[mname] = cls
     return cls
 
@@ -311,7 +321,7 @@ def gen_param(rng, name, depth=2, writable_p=0.6, kinds=None):
     return p
 
 
-def gen_module_spec(rng, name, depth=2, nparams=None, full=False, constants='simple'):
+def gen_module_spec(rng, name, depth=2, nparams=None, full=False, constants='simple', constants_read=False):
     base = rng.choice(['Module', 'Readable', 'Writable', 'Drivable'])
     spec = {'name': name, 'base': base, 'export': True, 'params': [], 'cmds': [],
             'pollinterval': rng.choice([0.5, 1.0, 3.0])}
@@ -335,6 +345,10 @@ def gen_module_spec(rng, name, depth=2, nparams=None, full=False, constants='sim
             if r < 0.12 and (constants == 'all' or p['di']['type'] in ('double', 'int', 'bool', 'string', 'enum')):
                 p['constant'] = p['default']
                 p['read'] = p['write'] = False
+                if constants_read and rng.random() < 0.5:
+                    # the class has a hardware read method for a parameter which is pinned to a constant
+                    p['read'] = True
+                    p['hw'] = dtgen.valid_wire(rng, p['di'])
             elif r < 0.24:
                 p['export'] = False
             elif r < 0.3:
@@ -343,6 +357,10 @@ def gen_module_spec(rng, name, depth=2, nparams=None, full=False, constants='sim
                 p['limits'] = rng.choice(['min', 'max', 'minmax', 'limits'])
             if p['di']['type'] in NUMERIC and not p['readonly'] and not p['limits'] and rng.random() < 0.3:
                 p['veto'] = dtgen.valid_wire(rng, p['di'])
+            elif p['di']['type'] in NUMERIC and not p['readonly'] and p['limits'] and rng.random() < 0.3:
+                # a hand-written check hook in the base class, the limits declared in a subclass: both apply
+                p['veto'] = dtgen.valid_wire(rng, p['di'])
+                p['split'] = True
             p['unchanged'] = rng.choice(['default', 'default', 'always', 'never', 0.5])
         spec['params'].append(p)
     if full:
